@@ -249,9 +249,7 @@ def run(ctx):
         s = judge(ctx, segs, meta)
         if s:
             sigs.add('%08x' % zlib.crc32(s.encode()))
-        if samples < 1 and k == 3:
-            samples += 1
-            ctx.case(n=0, sample={'text': RE.render(segs)[:800], 'meta': meta})
+        ctx.sample({'text': RE.render(segs)[:800], 'meta': meta})
     ctx.case(n=per + (len(DIRECTED) if ctx.shard == 0 else 0), sigs=sorted(sigs))
 
 
